@@ -50,7 +50,8 @@ def run(ctx, with_contradiction=True):
         fs = [x[1] for x in walk(t) if x.tag == 'field' and x[2].tag == 'param']
         kind = 'scalar' if any(x.tag == 'call' and x[1].endswith('Scalar::as_bytes') for x in walk(t)) else \
                'point' if any(x.tag == 'call' and x[1].endswith('as_fixed_bytes') for x in walk(t)) else \
-               'byte' if any(x.tag == 'call' and x[1].endswith('to_le_bytes') for x in walk(t)) else '?'
+               'byte' if any(x.tag == 'call' and x[1].endswith('to_le_bytes') for x in walk(t)) or \
+               (e['decl'].endswith('::push') and any(x.tag == 'cast' and 'u8' in [y for y in x.args if isinstance(y, str)] for x in walk(t))) else '?'
         each = any(x.tag == 'elem' for x in walk(t))
         ads = ctx.adapters(t)
         enc_seq.append((fs[0] if len(fs) == 1 else tuple(fs), kind, each, tuple(ads), e))
@@ -111,10 +112,12 @@ def run(ctx, with_contradiction=True):
     dec_order = [f for _, f in sorted(order)]
     # li and ri come from the same unzip: keep their relative order by tuple component
     def comp(t):
-        return t[1] if t.tag == 'field' and t[1] in ('0', '1') else None
+        # (components of a decoded pair the value is taken from, the pair sources)
+        fs = [x for x in walk(t) if x.tag == 'field' and x[1] in ('0', '1') and x[2].tag != 'field']
+        return sorted({x[1] for x in fs}), {x[2].id for x in fs}
     if 'li' in terms and 'ri' in terms:
-        ci, cr = comp(terms['li']), comp(terms['ri'])
-        rep.check(ci == '0' and cr == '1' and terms['li'][2] is terms['ri'][2], 'R-C15-1', 'R-C15-1/decoder/unzip', 'L is the first and R the second component of each decoded pair',
+        (ci, bi), (cr, br) = comp(terms['li']), comp(terms['ri'])
+        rep.check(ci == ['0'] and cr == ['1'] and bi == br and len(bi) == 1, 'R-C15-1', 'R-C15-1/decoder/unzip', 'L is the first and R the second component of each decoded pair',
                   'decoded pairs are assigned li <- .%s, ri <- .%s' % (ci, cr), ctx.where(dec, abb))
         dec_order = [f for f in dec_order if f not in ('li', 'ri')] + ['li', 'ri']
     rep.check(dec_order == ORDER, 'R-C15-1', 'R-C15-1/decoder/order', 'decoder reads the fields in the order %s' % ORDER,
@@ -125,7 +128,13 @@ def run(ctx, with_contradiction=True):
         if t is None:
             rep.violation('R-C15-1', 'R-C15-1/decoder/field/%s' % f, 'decoder does not set field %s' % f, ctx.where(dec, abb))
             continue
+        t = ctx.eng.expand(t)
         calls = {x[1].split('::')[-1] for x in walk(t) if x.tag == 'call'}
+        for x in walk(t):
+            # helpers that were not expanded (e.g. recursion guard): everything they can reach
+            if x.tag == 'call' and x[1] in ctx.facts.fn:
+                for cb in [ctx.facts.fn[x[1]]] + list(ctx.facts.reachable_from([ctx.facts.fn[x[1]]])):
+                    calls |= {callee_decl(tt).split('::')[-1] for _, tt in ctx.calls(cb)}
         # closures applied lazily (map ... collect): look into their bodies
         for x in walk(t):
             if x.tag == 'closure' and x[1] in ctx.facts.fn:
@@ -156,7 +165,7 @@ def run(ctx, with_contradiction=True):
     d1 = terms.get('d1')
     if d1 is not None:
         rng = [x for x in walk(d1) if x.tag == 'range']
-        good = bool(rng) and rng[0][1].tag == 'const' and rng[0][1][1] == 0 and any(y is terms.get('extension_degree') for y in walk(rng[0][2]))
+        good = bool(rng) and rng[0][1].tag == 'const' and rng[0][1][1] == 0 and any(y is terms.get('extension_degree') or y is ctx.eng.expand(terms.get('extension_degree')) for y in walk(rng[0][2]))
         rep.check(good, 'R-C15-1', 'R-C15-1/decoder/d1-count', 'exactly `degree` scalars are read into d1 (0..degree)', 'd1 is read %s times' % (short(rng[0], 100) if rng else '?'), ctx.where(dec))
 
     # ---- R-C15-2 the canonical parser rejects (None -> Err) and no reducing parser on the decode path
@@ -180,7 +189,7 @@ def run(ctx, with_contradiction=True):
     rep.floor('R-C15-2', 'from_canonical_bytes call sites on the decode path', ncanon, 1)
 
     # ---- R-C15-3 decoder guards
-    rows = guard_table(ctx, dec)
+    rows = guard_table(ctx, dec, deep=True, expand=True)
     atoms = [(a, r) for r in rows for a in r['atoms'] if r['eff'] != 'bypass' and not r['ctx']]
     def find(pred):
         return [r for a, r in atoms if pred(a)]
